@@ -258,6 +258,18 @@ func runItem(prop, tier string, idx int, deadline time.Time, maxExecs int) *Item
 	}
 	r.Nondet = st.Nondet
 	r.Samples = []string{it.Sample}
+	// one actual execution written out: the default schedule's observation record
+	{
+		scfg := it.Cfg
+		scfg.Strategy = it.Strat
+		if o, bad := explore.RunOne(it.Exec, scfg, nil); bad == "" && o != nil {
+			obs := o.Obs
+			if len(obs) > 400 {
+				obs = obs[:400] + "..."
+			}
+			r.Samples = []string{fmt.Sprintf("program %s; base strategy %d; default schedule (%d visible operations, %d choice points) observed: %s", it.Sample, it.Strat, o.Res.Steps, len(o.Res.Choices), obs)}
+		}
+	}
 	// keep one representative per key, confirm each by replaying 5 times
 	seen := map[string]bool{}
 	for _, f := range st.Found {
